@@ -83,11 +83,11 @@ Definition model_obs (c : case) : obs :=
        | Some o => sd && eq_bytes (hx o) w      (* the record is the very byte string sent *)
        | None => negb sd
        end)
-      (ms_list a)
-      (ms_list (if sd then recorded kv else
-                  let p := plain_advertised cfg in
-                  mkL (l_max_data p) (l_sd_bl p) (l_sd_br p) (l_sd_uni p) (l_s_bidi p) (l_s_uni p) (l_cid p)
-                      (if c_dg cfg then wireMaxDatagramSize else (-1)) (c_idle cfg) 0))
+      (* the harness's reading of the wire: all thirteen fields *)
+      (record_list (read_list pw))
+      (* the record: spec-driven: PopulateFromUQUIC on the list the dial works on (NOT on the parse of the
+         wire); plain: the struct the parameters were marshaled from, i.e. the reading of the wire *)
+      (record_list (if sd then record_of (dial_list sup (hx scid) ps) else read_list pw))
       (enf_list cfg)
       (client_idle (c_idle cfg) peer_idle)
       (idle_deadline (c_idle cfg) peer_idle pto3)
